@@ -25,6 +25,7 @@ import (
 	"encoding/json"
 	"flag"
 	"fmt"
+	"sort"
 	"strings"
 
 	"verif/internal/evid"
@@ -534,6 +535,16 @@ func main() {
 					rdec, _, err := refsem.DecodeStruct(m.result.Fields, pm.body)
 					if err != nil || rdec.Get(c.exc.ID) == nil {
 						v("exception-wire-id:"+m.fn.Name, fmt.Sprintf("result struct does not carry the exception under its IDL id %d (%v)", c.exc.ID, err))
+						continue
+					}
+					// the result is a union in spirit: the reply to a call that threw carries that exception and nothing else
+					if len(rdec.O) != 1 {
+						var ids []string
+						for k := range rdec.O {
+							ids = append(ids, k)
+						}
+						sort.Strings(ids)
+						v("reply-carries-more-than-the-exception:"+m.fn.Name, fmt.Sprintf("the handler returned the declared exception (field %d); the REPLY's result struct carries fields %v", c.exc.ID, ids))
 						continue
 					}
 				case "error":
